@@ -21,7 +21,7 @@ if [ -n "${SHARD:-}" ]; then
   for p in "${patches[@]}"; do [ $((k % n)) -eq $i ] && sel+=("$p"); k=$((k+1)); done
   patches=("${sel[@]}")
 fi
-checks="C01 C02 C03 C04 C05 C06 C07 C08 C09 C10 C11 C12 C13 C14 C15 C16 C17 C18 C19"
+checks="${CHECKS:-C01 C02 C03 C04 C05 C06 C07 C08 C09 C10 C11 C12 C13 C14 C15 C16 C17 C18 C19}"
 $MX/verif/check build || exit 2
 for p in "${patches[@]}"; do
   name=$(echo $p | sed 's#/verif/##; s#/patch.diff##; s#mutants/##; s#seeded/##; s#.diff##')
